@@ -675,8 +675,9 @@ impl Exec for CodecWExec {
                 let (buf, n) = got;
                 // ---- direct oracle (C03/C04/C09): exactly the first min(k, consumable) consumable bytes come
                 // out, in order; as many bytes leave the iovec as were copied; nothing else is written
-                let want = k.min(snap.len());
-                if n != want {
+                // (a SHORT read - fewer than min(k, consumable) bytes - is allowed by `io::Read` and loses nothing:
+                // it is left to the correspondence with the model, which fills the buffer like the code does)
+                if n > k || n > snap.len() {
                     so.violations.push(format!("C09 read(buf[..{}]) returned {} with {} bytes consumable", k, n, snap.len()));
                 }
                 if n > k || buf[..n.min(k)] != snap[..n.min(snap.len()).min(k)] {
